@@ -91,6 +91,12 @@ def finish(ctx: Ctx, out: Outcome, t0: float, level: str = "model_checking") -> 
         for sig, n in sorted(seen.items()):
             print("  violations with signature %s: %d" % (sig, n))
     cov = dict(out.coverage)
+    if not isinstance(cov.get("exhaustive", False), bool):   # schema wants a boolean; keep the per-dimension detail next to it
+        cov["exhaustive_detail"] = cov["exhaustive"]
+        cov["exhaustive"] = bool(all(cov["exhaustive"].values())) if isinstance(cov["exhaustive"], dict) else bool(cov["exhaustive"])
+    for key in ("states", "transitions", "traces_validated_against_impl", "evaluations", "distinct_nontrivial"):
+        if key in cov and not isinstance(cov[key], int):
+            cov[key] = int(cov[key])
     cov.setdefault("known_findings_matched", {k: v for k, v in matched.items()})
     ev = {
         "property_id": ctx.pid,
@@ -102,6 +108,14 @@ def finish(ctx: Ctx, out: Outcome, t0: float, level: str = "model_checking") -> 
         "wall_s": round(time.time() - t0, 2),
         "violations": len(new),
     }
+    try:   # never leave an evidence file that does not validate
+        import jsonschema
+
+        jsonschema.validate(ev, json.load(open("/root/.vp/EVIDENCE.schema.json")))
+    except ImportError:
+        pass
+    except FileNotFoundError:
+        pass
     os.makedirs(EVIDENCE, exist_ok=True)
     tmp = os.path.join(EVIDENCE, ".%s.json.tmp" % ctx.pid)
     with open(tmp, "w") as fd:
